@@ -17,7 +17,7 @@ class TensorboardConfig(BaseConfig):
 @dataclass
 class LoggingConfig(BaseConfig):
     log_as_image: Optional[List[str]] = None
-    tensorboard: TensorboardConfig = TensorboardConfig()
+    tensorboard: TensorboardConfig = field(default_factory=TensorboardConfig)
 
 
 @dataclass
@@ -70,10 +70,10 @@ class TrainingConfig(BaseConfig):
     gradient_debug: bool = False
 
     # Loss
-    loss: LossConfig = LossConfig()
+    loss: LossConfig = field(default_factory=LossConfig)
 
     # Checkpointer
-    checkpointer: CheckpointerConfig = CheckpointerConfig()
+    checkpointer: CheckpointerConfig = field(default_factory=CheckpointerConfig)
 
     # Metrics
     metrics: List[str] = field(default_factory=lambda: [])
@@ -93,7 +93,7 @@ class ValidationConfig(BaseConfig):
 
 @dataclass
 class InferenceConfig(BaseConfig):
-    dataset: DatasetConfig = DatasetConfig()
+    dataset: DatasetConfig = field(default_factory=DatasetConfig)
     batch_size: int = 1
     crop: Optional[str] = None
 
@@ -117,10 +117,10 @@ class DefaultConfig(BaseConfig):
     model: ModelConfig = MISSING
     additional_models: Optional[Any] = None
 
-    physics: PhysicsConfig = PhysicsConfig()
+    physics: PhysicsConfig = field(default_factory=PhysicsConfig)
 
-    training: TrainingConfig = TrainingConfig()  # This should be optional.
-    validation: ValidationConfig = ValidationConfig()  # This should be optional.
+    training: TrainingConfig = field(default_factory=TrainingConfig)  # This should be optional.
+    validation: ValidationConfig = field(default_factory=ValidationConfig)  # This should be optional.
     inference: Optional[InferenceConfig] = None
 
-    logging: LoggingConfig = LoggingConfig()
+    logging: LoggingConfig = field(default_factory=LoggingConfig)
